@@ -325,7 +325,9 @@ fn execute(spec: &Spec, cfg: &str, sched: &[(u32, Ev)], first_new: usize, st: &m
             step(&mut s, Ev::R(keys[k]))?;
         }
     }
-    step(&mut s, Ev::T(spec.h + 14))?;
+    // settle: every queued event may wait for a whole decision (hold timeout + tap-repress window +
+    // processing latency) before it is looked at
+    step(&mut s, Ev::T(spec.h + 14 + ins.len() as u32 * (spec.h + 6)))?;
     let tr = s.trace();
     let mut decisions = vec![];
     let mut press_outputs = vec![];
